@@ -124,6 +124,16 @@ func loadCorpus() *corpusT {
 
 var oidLike = regexp.MustCompile(`^[0-9]+(\.[0-9]+)+$`)
 var dateLike = regexp.MustCompile(`^[0-9]{4}-[0-9]{2}-[0-9]{2}$`)
+var ipLike = regexp.MustCompile(`^[0-9]{1,3}\.[0-9]{1,3}\.[0-9]{1,3}\.[0-9]{1,3}$`)
+
+// typedSlot: the current value belongs to one of the value classes with their own hostile lists.
+func typedSlot(cur any) bool {
+	s, ok := cur.(string)
+	if !ok || s == "" {
+		return false
+	}
+	return ipLike.MatchString(s) || oidLike.MatchString(s) || dateLike.MatchString(s) || strings.HasPrefix(s, "!") || s == "hash" || durRx.MatchString(s) || strings.Contains(s, "=")
+}
 
 var big64k = strings.Repeat("A", 65536)
 
@@ -138,8 +148,11 @@ func hostileFor(r *Rng, cur any) any {
 	b64s := []any{"!binary:", "!binary:====", "!binary:A", "!binary:QUJD*", "!binary:AAA", "x!binary:QQ==", "!binary:" + strings.Repeat("QUJD", 20000), "!null", "!empty", "hash", "!emptyx", "!binary:QQ==\n", "!binary: QQ=="}
 	durs := []any{"99999999999999999999y", "0y0m0d", "y", "5x", "1y1y", "-1y", "9223372036854775807d", "2147483648m", "1d1y"}
 	subj := []any{"CN=", "=x", "CN=a,b", "CN=#", "CN=#zz", "CN=#13", "CN=#1303", "CN=#130341", "CN=#0c", "1.2.99999999999999999999=x", "C=\\,", "CN=a=b", "CN=x,", ",CN=x", "CN=#" + strings.Repeat("ff", 5000), "9.9=x", "1=x", "CN=\\", "CN=a\\,b, O=c", "  CN = x  ", "CN=a,,CN=b", "CN=x, ", "CN = x", "C=DE, " + strings.Repeat("OU=u, ", 40) + "CN=many", "CN=a\\,b"}
+	ips := []any{"::1", "2001:db8::1", "::ffff:1.2.3.4", "fe80::1%eth0", "::", "1.2.3.4/24", "01.02.03.04", "+1.2.3.4", "1.2.3.4 ", " 1.2.3.4", "256.1.1.1", "1.2.3.256", "1.2.3.-4", "-1.2.3.4", "1.2.3", "1.2.3.4.5", "1.2.3.", ".1.2.3.4", "1..3.4", "0x1.2.3.4", "1.2.3.4e0", "1.2.3.999999999999999999999", "a.b.c.d", "1,2,3,4", "0.0.0.0", "255.255.255.255", "1.2.3.4\n", "localhost", "[::1]", "1.2.3.4:80", "\u0661.2.3.4"}
 	if s, ok := cur.(string); ok {
 		switch {
+		case ipLike.MatchString(s) && r.Chance(5, 6):
+			return Pick(r, ips)
 		case oidLike.MatchString(s) && r.Chance(3, 4):
 			return Pick(r, oids)
 		case dateLike.MatchString(s) && r.Chance(3, 4):
@@ -151,7 +164,7 @@ func hostileFor(r *Rng, cur any) any {
 		case strings.Contains(s, "=") && r.Chance(3, 4):
 			return Pick(r, subj)
 		}
-		all := append(append(append(append(append([]any{}, generic...), oids...), dates...), b64s...), subj...)
+		all := append(append(append(append(append(append([]any{}, generic...), oids...), dates...), b64s...), subj...), ips...)
 		return Pick(r, append(all, durs...))
 	}
 	return Pick(r, generic)
@@ -252,6 +265,19 @@ func mutateDoc(r *Rng, text string) (string, string, bool) {
 		return "", "", false
 	}
 	s := Pick(r, slots)
+	if r.Bool() {
+		// half of the mutations go to a slot whose value has a format of its own (address, OID, date,
+		// duration, binary, name): those are parsed by hand in gopki
+		var typed []slot
+		for _, c := range slots {
+			if typedSlot(c.cur) {
+				typed = append(typed, c)
+			}
+		}
+		if len(typed) > 0 {
+			s = Pick(r, typed)
+		}
+	}
 	h := hostileFor(r, s.cur)
 	s.set(h)
 	var bb bytes.Buffer
